@@ -432,11 +432,39 @@ func replayHist(path string) int {
 		Property string `json:"property"`
 		What     string `json:"what"`
 		Case     struct {
-			Ops string `json:"ops"`
+			Kind string `json:"kind"`
+			Ops  string `json:"ops"`
 		} `json:"case"`
 	}
 	if err := json.Unmarshal(data, &rep); err != nil {
 		die("%v", err)
+	}
+	if rep.Case.Kind == "vrand" {
+		wv, _ := buildWorkerV()
+		cmd := exec.Command(wv, "-prop", "vrand", rep.Case.Ops)
+		cmd.Env = append(goEnv(), "VERIF_DIR="+verifDir)
+		out, err := cmd.Output()
+		if err != nil {
+			die("%v", err)
+		}
+		var vo vrandOut
+		if err := json.Unmarshal(out, &vo); err != nil {
+			die("%v", err)
+		}
+		fmt.Printf("replaying C07 default-source sequence [%s] (crypto/rand replaced by a position-coded stream)\nrecorded: %s\n", rep.Case.Ops, rep.What)
+		bad := !vo.SourceIsStandIn
+		for i, c := range vo.Calls {
+			fmt.Printf(" %2d %-6s window=[%d,%d) %s\n", i+1, c.Op, c.Offset, c.Offset+c.Len, c.Problem)
+			if c.Problem != "" {
+				bad = true
+			}
+		}
+		if bad {
+			fmt.Printf("VIOLATION property=C07 replay=%s\n", path)
+			return 1
+		}
+		fmt.Println("replay: sequence passes on the current tree")
+		return 0
 	}
 	w := buildWorker()
 	ops := strings.Split(rep.Case.Ops, ",")
